@@ -136,7 +136,8 @@ class FnTranslator:
         if h == "pident":
             name = S(p[1])
             if name[:1].isupper():
-                return "(PCon %s [])" % cs(name)
+                pre = getattr(self, "bare_con_prefix", "") if name not in ("None", "Some", "Ok", "Err") else ""
+                return "(PCon %s [])" % cs(pre + name)
             return "(PVar %s)" % cs(name)
         if h == "ppath":
             return "(PCon %s [])" % cs(self.con_name(self.path_segs(p[1])))
@@ -200,6 +201,12 @@ class FnTranslator:
                 stmts.append("SExpr %s" % self.expr(s[1]))
             elif h == "tail":
                 stmts.append("STail %s" % self.expr(s[1]))
+            elif h == "use" and self.interior:
+                # `use Enum::*;` inside a body: bare variant names below belong to that enum
+                mu = re.fullmatch(r"(\w+) :: \*", S(s[1]).strip())
+                if not mu:
+                    raise TranslateError("unsupported `use` inside a body: %s" % S(s[1]))
+                self.bare_con_prefix = mu.group(1) + "::"
             else:
                 raise TranslateError("unsupported statement %r" % (s,))
         return "(EBlock %s)" % clist(stmts)
@@ -270,6 +277,12 @@ class FnTranslator:
                     "".join(self.param_types.get(S(e[1][1]), "").split()).startswith("implInto<Option<"):
                 # `x.into()` of a parameter declared `impl Into<Option<T>>`: an Option stays, anything else becomes Some
                 return "(ECall \"into_option\" [%s])" % self.expr(e[1])
+            if self.interior and name in ("map", "collect", "zip") and self.has_zip(e):
+                return self.iter_pipeline(e)
+            if self.interior and name in getattr(self, "symbolic_methods", ()):
+                return "(ECon %s %s)" % (cs("." + name), clist([self.expr(e[1])] + [self.expr(a) for a in e[3:]]))
+            if self.interior and name in getattr(self, "accessor_methods", ()) and len(e) == 3:
+                return "(EField %s %s)" % (self.expr(e[1]), cs(name))
             if self.interior and name == "map" and len(e) == 4 and e[3][0] == "closure" and e[1][0] == "mcall" and \
                     S(e[1][2]) in ("into_iter", "iter") and len(e[1]) == 3:
                 return self.array_map(e[1][1], e[3])
@@ -352,6 +365,8 @@ class FnTranslator:
             # `e?`: the definition of the operator (the error is converted with From::from and returned)
             return ("(EMatch %s [(PCon \"Ok\" [PVar \"try_v\"], EVar \"try_v\"); "
                     "(PCon \"Err\" [PVar \"try_e\"], EReturn (ECon \"Err\" [ECon \"From::from\" [EVar \"try_e\"]]))])" % self.try_operand(e[1]))
+        if h == "diag" and self.interior:
+            return "(EConst VUnit)"        # a diagnostic is recorded by proc-macro-error; control flow goes on
         if h == "quote" and self.interior:
             # a code template: a symbolic value made of its text and the values of the variables it splices
             text = S(e[1])
@@ -443,6 +458,68 @@ class FnTranslator:
                     raise TranslateError("unsupported match arm: %r" % (a,))
             return out
         return "(EBlock [SLet (PVar %s) %s; STail (EMatch (EVar %s) %s)])" % (cs(tmp), self.expr(e[1]), cs(tmp), clist(arms_from(2)))
+
+    def has_zip(self, e):
+        while isinstance(e, list) and e and e[0] == "mcall":
+            if S(e[2]) == "zip":
+                return True
+            e = e[1]
+        return False
+
+    def iter_pipeline(self, e):
+        """`X.iter() [.map(f) | .zip(Y)]* [.collect()]` with at least one zip: the list of the pipeline's elements, computed by
+        an index loop. `zip(lo..)` pairs the element with lo + index, `zip(ys)` with ys[index] (the shorter length
+        bounds the loop); a stage function is a closure of one parameter (a name or a tuple of names) or a named function."""
+        stages = []
+        while e[0] == "mcall" and S(e[2]) in ("map", "zip", "collect", "clone"):
+            nm = S(e[2])
+            if nm == "collect" and len(e) == 3:
+                pass
+            elif nm in ("map", "zip") and len(e) == 4:
+                stages.append((nm, e[3]))
+            else:
+                raise TranslateError("iterator stage outside the subset: .%s" % nm)
+            e = e[1]
+        if not (e[0] == "mcall" and S(e[2]) in ("iter", "into_iter") and len(e) == 3):
+            raise TranslateError("iterator pipeline without .iter() source")
+        src = e[1]
+        stages.reverse()
+        self.hof_no = getattr(self, "hof_no", 0) + 1
+        n = self.hof_no
+        lets = ["SLet (PVar \"it_src%d\") %s" % (n, self.expr(src))]
+        length = "ECall \"len\" [EVar \"it_src%d\"]" % n
+        elem = "EIndex (EVar \"it_src%d\") (EVar \"it_i%d\")" % (n, n)
+        for k, (nm, arg) in enumerate(stages):
+            if nm == "zip":
+                if arg[0] == "range" and len(arg) == 2:
+                    other = "EBin \"+\" %s (EVar \"it_i%d\")" % (self.expr(arg[1]), n)
+                else:
+                    y = arg
+                    while y[0] == "mcall" and S(y[2]) in ("clone", "iter", "into_iter") and len(y) == 3:
+                        y = y[1]
+                    lets.append("SLet (PVar \"it_zip%d_%d\") %s" % (n, k, self.expr(y)))
+                    length = "ECall \"min\" [%s; ECall \"len\" [EVar \"it_zip%d_%d\"]]" % (length, n, k)
+                    other = "EIndex (EVar \"it_zip%d_%d\") (EVar \"it_i%d\")" % (n, k, n)
+                elem = "ECon \"()\" [%s; %s]" % (elem, other)
+            else:
+                if arg[0] == "closure":
+                    if len(arg[1]) != 2:
+                        raise TranslateError("closure with other than one parameter")
+                    elem = "EBlock [SLet %s (%s); STail %s]" % (self.pat(arg[1][1]), elem, self.expr(arg[2]))
+                elif arg[0] == "path":
+                    segs = self.path_segs(arg)
+                    if segs[-1] in getattr(self, "symbolic_methods", ()):
+                        elem = "ECon %s [%s]" % (cs("." + segs[-1]), elem)
+                    else:
+                        fname = "::".join(segs)
+                        self.calls.add(fname)
+                        elem = "ECall %s [%s]" % (cs(fname), elem)
+                else:
+                    raise TranslateError("iterator stage function outside the subset")
+        lets.append("SLet (PVar \"it_acc%d\") (EArr [])" % n)
+        loop = ("SExpr (EFor \"it_i%d\" (EConst (VNat 0)) (%s) (EBlock [STail (EAssign \"it_acc%d\" [] "
+                "(ECall \"push\" [EVar \"it_acc%d\"; %s]))]))" % (n, length, n, n, elem))
+        return "(EBlock %s)" % clist(lets + [loop, "STail (EVar \"it_acc%d\")" % n])
 
     def closure1(self, clo):
         if len(clo[1]) != 2 or clo[1][1][0] != "pident":
@@ -576,7 +653,7 @@ def fetch_ast(path):
 
 
 BUILTINS = {"len", "is_empty", "konst::cmp_str", "konst::eq_str", "into", "to_string", "unwrap_or_default_string", "Binary::default",
-            "anyhow::is", "anyhow::downcast", "unwrap", "push", "Response::new", "add_submessages", "add_events", "add_attributes", "into_option", "is_some", "is_none"}
+            "anyhow::is", "anyhow::downcast", "unwrap", "push", "Response::new", "add_submessages", "add_events", "add_attributes", "into_option", "is_some", "is_none", "min"}
 
 
 def translate_utils():
@@ -783,6 +860,23 @@ def translate_macro_logic():
     return out + [found]
 
 
+def translate_dispatch_leg():
+    """`MsgVariant::emit_dispatch_leg` (types/msg_variant.rs) and `MsgType::emit_dispatch_leg` (types/msg_type.rs): the match arm
+    of a message variant - which names its fields are bound to and in which order they are passed to the handler."""
+    def setup(t):
+        t.interior = True
+        t.symbolic_methods = {"name", "span"}
+        t.accessor_methods = {"msg_type"}
+        t.own_methods = {"emit_dispatch_leg": "MsgType::emit_dispatch_leg"}
+    FOREIGN.update({"Ident::new": "Ident::new", "crate_module": "call:extern::crate_module"})
+    kv = fetch_ast(os.path.join(common.REPO, "sylvia-derive", "src", "types", "msg_variant.rs"))
+    known = {"MsgType::emit_dispatch_leg", "push", "min", "extern::crate_module"}
+    out = translate_methods("types/msg_variant.rs", {"MsgVariant": ["emit_dispatch_leg"]}, setup=setup, kv=kv, extra_known=known)
+    kv2 = fetch_ast(os.path.join(common.REPO, "sylvia-derive", "src", "types", "msg_type.rs"))
+    out += translate_methods("types/msg_type.rs", {"MsgType": ["emit_dispatch_leg"]}, setup=setup, kv=kv2, extra_known=known)
+    return out
+
+
 MT_LOGIC_EXTERNS = {"crate_module", "emit_bracketed_generics", "get_ident_from_type"}
 
 
@@ -898,6 +992,11 @@ def generate():
     except TranslateError as e:
         mtlogic, _ = [], errors.append("macro logic (contract/mt.rs emit_impl_contract): %s" % e)
 
+    try:
+        legs = translate_dispatch_leg()
+    except TranslateError as e:
+        legs, _ = [], errors.append("macro logic (dispatch legs: msg_variant.rs, msg_type.rs): %s" % e)
+
     def prog(fns):
         return "  [ " + ";\n    ".join(fns) + " ]." if fns else "  []."
     text = "\n".join([
@@ -937,7 +1036,9 @@ def generate():
         "(* EntryPoints::emit (which entry points exist) and get_entry_point *)",
         "Definition macro_fns : program :=", prog(macro), "",
         "(* which body each operation of the generated `impl cw_multi_test::Contract` gets (contract/mt.rs) *)",
-        "Definition mtlogic_fns : program :=", prog(mtlogic), ""])
+        "Definition mtlogic_fns : program :=", prog(mtlogic), "",
+        "(* the match arm of a message variant: MsgVariant::emit_dispatch_leg, MsgType::emit_dispatch_leg *)",
+        "Definition leg_fns : program :=", prog(legs), ""])
     return text, errors
 
 
